@@ -128,6 +128,16 @@ class Table(SubCheck):
                 kw["preserveAspectRatio"] = case["par"]
             vb3 = svg.Viewbox(kw)
             m3 = svg.Matrix(vb3.transform(Elem(f[0], f[1], f[2], f[3])))
+            # the remaining constructor forms: copy, copy / dict with a new preserveAspectRatio, keywords, four numbers
+            other = "xMaxYMin slice" if case["par"] != "xMaxYMin slice" else "none"
+            forms = {
+                "Viewbox(viewbox)": svg.Viewbox(vb),
+                "Viewbox(other_par_viewbox, par)": svg.Viewbox(svg.Viewbox(kw["viewBox"], other), case["par"]) if case["par"] is not None else None,
+                "Viewbox(dict_with_other_par, par)": svg.Viewbox({"viewBox": kw["viewBox"], "preserveAspectRatio": other}, case["par"]) if case["par"] is not None else None,
+                "Viewbox(viewBox=, preserveAspectRatio=)": svg.Viewbox(viewBox=kw["viewBox"], preserveAspectRatio=case["par"]),
+                "Viewbox(viewBox=, preserve_aspect_ratio=)": svg.Viewbox(viewBox=kw["viewBox"], preserve_aspect_ratio=case["par"]),
+            }
+            extra = {nm: svg.Matrix(v.transform(Elem(f[0], f[1], f[2], f[3]))) for nm, v in forms.items() if v is not None}
         except Exception as e:  # noqa
             out.fail("viewbox_transform raised %s" % type(e).__name__, [float(x) for x in exp], repr(e), exc=type(e).__name__,
                      **tags)
@@ -137,6 +147,8 @@ class Table(SubCheck):
         mat_close(g1, exp, out, "Viewbox.viewbox_transform%r -> %r" % (tuple(f) + (case["par"],), s1), tags)
         mat_close((m2.a, m2.b, m2.c, m2.d, m2.e, m2.f), exp, out, "Viewbox(str, par).transform(element) -> %r" % s2, tags)
         mat_close((m3.a, m3.b, m3.c, m3.d, m3.e, m3.f), exp, out, "Viewbox(dict).transform(element)", tags)
+        for nm, m in extra.items():
+            mat_close((m.a, m.b, m.c, m.d, m.e, m.f), exp, out, "%s.transform(element)" % nm, dict(tags, form=nm))
         return out
 
     def unit_test(self, case):
@@ -148,6 +160,10 @@ class Table(SubCheck):
 
 SUPPLY = ["attr-num", "attr-unit", "attr-percent", "caller", "caller-width-only", "caller-height-only", "default"]
 WS_PARS = ["xMaxYMin  slice", " xMinYMax meet", "xMidYMid slice ", "xMinYMid\tslice", "xMaxYMax   meet"]
+
+
+def par_of(c):
+    return " ".join(c["par"].split()) if c["par"] is not None else None
 
 
 def _dec(fr):
@@ -169,11 +185,11 @@ class Documents(SubCheck):
         self.svg = svg
         sizes = SIZES if tier == "thorough" else ["0.01", "3", "100", "10000"]
         vorig = [("0", "0"), ("-5.5", "7.25")]
-        self.p = Product(PARS + WS_PARS, sizes, sizes, sizes, sizes, vorig, SUPPLY, [True, False])
+        self.p = Product(PARS + WS_PARS, sizes, sizes, sizes, sizes, vorig, SUPPLY + ["nested"], [True, False])
         if tier != "thorough":
             # quick: the full par x supply table on a pairwise-reduced size lattice
-            self.p = Product(PARS + WS_PARS, ["0.01", "100"], ["3", "10000"], ["3", "100"], ["0.01", "100"], vorig, SUPPLY,
-                             [True, False])
+            self.p = Product(PARS + WS_PARS, ["0.01", "100"], ["3", "10000"], ["3", "100"], ["0.01", "100"], vorig,
+                             SUPPLY + ["nested"], [True, False])
         self.bounds = dict(pars=len(PARS) + len(WS_PARS), supply=SUPPLY)
 
     def size(self):
@@ -193,7 +209,7 @@ class Documents(SubCheck):
         kw = dict(reify=c["reify"])
         ppi = 96
         sup = c["supply"]
-        if sup == "attr-num":
+        if sup in ("attr-num", "nested"):
             attrs += ['width="%s"' % c["ew"], 'height="%s"' % c["eh"]]
         elif sup == "attr-unit":
             # inches at ppi 96 where ew/96 is a short decimal, else picas; height in points (4/3 px).  The library
@@ -223,6 +239,12 @@ class Documents(SubCheck):
         rx, ry, rw, rh = F(c["vbx"]) + F(c["vbw"]) / 4, F(c["vby"]) + F(c["vbh"]) / 8, F(c["vbw"]) / 2, F(c["vbh"]) / 4
         doc = '<svg %s><rect x="%s" y="%s" width="%s" height="%s"/></svg>' % (
             " ".join(attrs), float(rx), float(ry), float(rw), float(rh))
+        if sup == "nested":
+            # the same viewport as a nested svg at the origin of a root that establishes no viewport transform of its own
+            # but carries a (different) preserveAspectRatio, which must not reach the nested element
+            other = "xMaxYMin slice" if par_of(c) != "xMaxYMin slice" else "none"
+            inner = doc.replace('xmlns="http://www.w3.org/2000/svg" ', "")
+            doc = '<svg xmlns="http://www.w3.org/2000/svg" preserveAspectRatio="%s">%s</svg>' % (other, inner)
         par_norm = " ".join(c["par"].split()) if c["par"] is not None else None
         cexp = dict(c)
         cexp["par"] = par_norm
@@ -234,14 +256,14 @@ class Documents(SubCheck):
         out.nontrivial.append((align, mos, sup, c["ew"], c["eh"], c["vbw"], c["vbh"], c["vbx"], tags["ws"]))
         try:
             d = svg.SVG.parse(io.StringIO(doc), ppi=ppi, **kw)
-            m = svg.Matrix(d.viewbox_transform)
+            m = svg.Matrix(d.viewbox_transform if sup != "nested" else "")
             shapes = [e for e in d.elements() if isinstance(e, svg.Rect)]
         except Exception as e:  # noqa
             out.fail("SVG.parse(%r, %r) raised %s" % (doc, kw, type(e).__name__), None, repr(e), exc=type(e).__name__, **tags)
             return out
         g = (m.a, m.b, m.c, m.d, m.e, m.f)
         out.outcome = tuple(round(x, 10) for x in g)
-        if not mat_close(g, exp, out, "SVG.parse(...).viewbox_transform of %r %r" % (doc, kw), tags):
+        if sup != "nested" and not mat_close(g, exp, out, "SVG.parse(...).viewbox_transform of %r %r" % (doc, kw), tags):
             return out
         if len(shapes) != 1:
             out.fail("expected one rect from %r" % doc, 1, len(shapes), **tags)
